@@ -128,6 +128,21 @@ fn handle(parts: &[&str]) -> String {
             walk(src.root(), &mut out);
             format!("ok {}", out.join(" "))
         }
+        "leaves" => {
+            // the leaf tokens of the parse tree of a source text, in order: Kind:hextext ...  (first word: 1 if the tree holds errors)
+            let src = Source::detached(unhex(parts[1]));
+            fn walk(n: &SyntaxNode, out: &mut Vec<String>) {
+                if n.children().len() == 0 {
+                    out.push(format!("{:?}:{}", n.kind(), hex(n.text())));
+                }
+                for c in n.children() {
+                    walk(c, out);
+                }
+            }
+            let mut out = vec![];
+            walk(src.root(), &mut out);
+            format!("ok {} {}", src.root().erroneous() as u8, out.join(" "))
+        }
         "trees" => {
             // every inner node of the parse tree of a source file as a compact s-expression:
             // (Kind child child ...) ; leaves as Kind:hextext.  Only nodes whose subtree has at most `max` nodes are printed.
